@@ -161,7 +161,7 @@ pub fn run(ctx: &Ctx) -> i32 {
                             json!({"case": case(), "divergent_subset_edges": mask_edges(m as u64, g.ne()), "omega": om[m].to_string()}),
                         );
                     }
-                    if let Some(tv) = TableView::from_json(&s.json()) {
+                    if let Some(tv) = s.table_view() {
                         if divergent.is_empty() {
                             if let Some((m, j)) = tv.j.iter().enumerate().find(|(_, j)| !(j.is_finite() && **j > 0.0)) {
                                 acc.violate(item, "j_not_finite_positive", "build:j_not_positive", json!({"case": case(), "subset": m, "J": fj(*j)}));
